@@ -147,6 +147,20 @@ func C14NestedCatalogue(tier string) []*Request {
 			}
 		}
 	}
+	// flatten below flatten, with and without prefixes at either level (the decoder enumerates the inlined keys)
+	{
+		id := "ftndflatnest"
+		pkg := id + ".v1"
+		geo := M("Geo", F("zip", 1, "string"), F("lat_deg", 2, "int32"))
+		addr := M("Addr", F("street", 1, "string"), F("geo", 2, "", Msg(pkg+".Geo"), Flatten(true)))
+		addrP := M("AddrP", F("street", 1, "string"), F("geo", 2, "", Msg(pkg+".Geo"), Flatten(true), FlattenPrefix("geo_")))
+		r := c14RequestOf(id, []*Message{geo, addr, addrP,
+			M("OrderA", F("oid", 1, "string"), F("ship", 2, "", Msg(pkg+".Addr"), Flatten(true), FlattenPrefix("ship_"))),
+			M("OrderB", F("oid", 1, "string"), F("ship", 2, "", Msg(pkg+".AddrP"), Flatten(true), FlattenPrefix("ship_")), F("bill", 3, "", Msg(pkg+".AddrP"), Flatten(true), FlattenPrefix("bill_"))),
+			M("OrderC", F("oid", 1, "string"), F("ship", 2, "", Msg(pkg+".Addr"), Flatten(true)))})
+		r.Tags = append(r.Tags, "flatten", "nested-flatten")
+		out = append(out, r)
+	}
 	return out
 }
 
